@@ -28,7 +28,7 @@ echo "-- demo WITH the change (must fail)"
 (cd "$SCR" && go test -count=1 -vet=off -run 'Seed|C[0-9][0-9]|Mut|MutA|MutB' ./$D 2>&1 | grep -E "^(--- FAIL|FAIL|ok|panic)" | head -5)
 rm -f "$SCR/$D/zz_seed_demo_test.go"
 echo "-- static check on the changed tree"
-/tmp/fibercheck.seed -repo "$SCR" -out /tmp/seed-ev -known /verif/known_findings.json -tier quick "$PROP" 2>&1 | grep -v "WARNING\|KNOWN-FINDING" | cut -c1-400
+EV=$(mktemp -d); VERIF_REPO="$SCR" VERIF_OUT="$EV" /verif/check "$PROP" quick 2>&1 | grep -v "WARNING\|KNOWN-FINDING" | cut -c1-400; rm -rf "$EV"; 
 git -C "$SCR" checkout -q -- .
 cp "$DEMO" "$SCR/$D/zz_seed_demo_test.go"
 echo "-- demo WITHOUT the change (must pass)"
